@@ -153,6 +153,7 @@ class State:
         self.notes = []
         self.replay = {}
         self.log = {}
+        self.br = {}        # branch variables of opaque conditions, per AST node (stable under re-execution of a statement)
 
     def fork(self):
         s = State()
@@ -163,6 +164,7 @@ class State:
         s.notes = list(self.notes)
         s.replay = dict(self.replay)
         s.log = dict(self.log)
+        s.br = dict(self.br)
         return s
 
     def alloc(self, data):
@@ -660,7 +662,9 @@ class Engine:
         v = self.eval(e, st)
         if isinstance(v, Opaque):
             self.abstracted.add("branch on opaque: " + unparse(e)[:60])
-            return fresh("br", B)
+            if id(e) not in st.br:
+                st.br[id(e)] = fresh("br", B)
+            return st.br[id(e)]
         if isinstance(v, Ref):
             d = st.get(v)
             if isinstance(d, ListData):
@@ -1096,6 +1100,7 @@ class Engine:
             return
         if isinstance(d, ArrData):
             st.put(base, self.lib.array_store(self, d, sl, v, st, node))
+            st.events.append(("store", base.id, sl, v, getattr(node, "lineno", 0)))
             return
         raise Unsupported(f"store into {type(d).__name__}")
 
@@ -1179,6 +1184,8 @@ class Engine:
                     ci, m = self.repo.resolve_method(d.cls, attr)
                     if m is not None:
                         return BoundMethod(base, attr)
+                if self.lib is not None and self.lib.contract_for(f"{d.cls}.{attr}") is not None:
+                    return BoundMethod(base, attr)
                 if d.fields.get("__open__"):
                     return Opaque(f"{d.cls}.{attr}")
                 raise _Raise("AttributeError", st)
@@ -1569,6 +1576,7 @@ class Engine:
         (unless the L1 frame summary of a package callee says which arguments it can mutate)."""
         self.abstracted.add(name)
         cand = list(args) + list(kwargs.values()) if summary is None else summary
+        pre = {a.id: st.heap.get(a.id) for a in list(args) + list(kwargs.values()) if isinstance(a, Ref)}   # argument values at the call
         for a in cand:
             if isinstance(a, Ref):
                 d = st.get(a)
@@ -1578,7 +1586,7 @@ class Engine:
                 elif isinstance(d, ListData):
                     st.put(a, ListData(fresh("havoc_n", I), fresh_sel("havoc", d.kind or "o"), d.kind))
         res = Opaque("call:" + name)
-        st.events.append(("call", name, args, kwargs, res))
+        st.events.append(("call", name, args, kwargs, res, pre))
         return res
 
 
@@ -1643,3 +1651,36 @@ class LoopSpec:
     def __init__(self, inv=None, step=None, on_iter=None, self_writes=(), end_assume=None):
         self.inv, self.step, self.on_iter, self.self_writes = inv, step, on_iter, tuple(self_writes)
         self.end_assume = end_assume     # ghost updates at the end of an iteration (definitions by unfolding only)
+
+
+# ------------------------------------------------------------------------------ provenance of opaque values (event log)
+TRANSPARENT = {"astype", "np.asarray", "np.array", "asarray", "copy", "np.copy", "ravel", "flatten", "np.atleast_1d", "column_or_1d"}
+
+
+def producer(st, v):
+    """the recorded call event that produced the opaque value v (or None)"""
+    if not isinstance(v, Opaque):
+        return None
+    for ev in reversed(st.events):
+        if ev[0] == "call" and ev[4] is v:
+            return ev
+    return None
+
+
+def derives_from(st, v, names, depth=6):
+    """does v stem from a call to one of `names`, possibly through value-preserving calls (astype, asarray, ...)?
+    returns the producing event or None"""
+    for _ in range(depth):
+        ev = producer(st, v)
+        if ev is None:
+            return None
+        nm = ev[1]
+        short = nm.split(".")[-1]
+        if nm in names or short in names:
+            return ev
+        if short in TRANSPARENT or nm in TRANSPARENT:
+            args = ev[2]
+            v = args[0] if args else None
+            continue
+        return None
+    return None
